@@ -561,7 +561,35 @@ def probe_pair(w, op):
             w.report({"C02"}, f"pair:cross-class|{name}|{'equal' if st == 'ok' else st}|{cls}", repr(val))
             return
     else:
-        compare_pair(w, a.real, a.model, b.real, b.model, "live")
+        ok = compare_pair(w, a.real, a.model, b.real, b.model, "live")
+        nv = op.get("variants", 0)
+        if ok and nv:
+            # the answer must not depend on identifiers / insertion order (the
+            # search visits candidates in set order): same verdict expected for
+            # freshly built renamings of the second graph
+            exp = _expected_equal(a.model, b.model)
+            if exp is not None:
+                rng = random.Random(op.get("seed", 0))
+                R = w.R
+                cls = _cls(a)
+                for _ in range(nv):
+                    tm = model.relabel(b.model, _twin_mapping(b.model, rng, ()))
+                    try:
+                        t = R.guarded(R.build, tm, rng, None)
+                    except Exception:  # noqa: BLE001
+                        break
+                    bad = False
+                    for name, fn in (("a==b'", lambda: a.real == t), ("b'==a", lambda: t == a.real)):
+                        st, val = _call(w, fn)
+                        if st != "ok" or bool(val) != exp:
+                            what = st if st != "ok" else ("equal-but-not-isomorphic" if not exp else "isomorphic-but-unequal")
+                            w.report({"C02" if not exp else "C01"}, f"pair:variant|{name}|{what}|{cls}",
+                                     repr({"a": a.model.view(), "b": tm.view()})[:2500])
+                            bad = True
+                            break
+                    w.stats["pair:variants"] += 1
+                    if bad:
+                        break
     w.coherent(s1, {"C09"}, "probe_pair", what="after-query")
     w.coherent(s2, {"C09"}, "probe_pair", what="after-query")
 
@@ -573,7 +601,7 @@ def mutate_model(m: RefGraph, rng):
     if descs:
         kinds += ["flip", "swap_ligands", "drop_desc"] * 2
     if m.is_reaction and m.bonds:
-        kinds += ["role"] * 2
+        kinds += ["role"] * 2 + ["exchange"] * 2
     if m.has_changes and descs:
         kinds += ["move_role"]
     rng.shuffle(kinds)
@@ -632,6 +660,31 @@ def mutate_model(m: RefGraph, rng):
                 else:
                     tab[key][role] = nd
             return g, kind
+        if kind == "exchange":
+            # degenerate exchange: A-B + A'-B' -> A-B' + A'-B.  Reactant and
+            # product keep their (element, neighbour elements) multisets, only
+            # the transition structure differs (C16, third family)
+            el = lambda a: g.atoms[a]["atom_type"]
+            plain = [b for b in sorted(g.bonds, key=lambda b: tuple(sorted(b))) if not g.bonds[b].get("reaction")]
+            used = set()
+            for w_, key, _r, d in g.all_descs():
+                used |= set(geom.desc_atoms(d))
+            cands = []
+            for i, b1 in enumerate(plain):
+                for b2 in plain[i + 1:]:
+                    if b1 & b2:
+                        continue
+                    for (a, b_), (c, d_) in ((tuple(sorted(b1)), tuple(sorted(b2))), (tuple(sorted(b1)), tuple(sorted(b2))[::-1])):
+                        if el(a) == el(c) and el(b_) == el(d_) and B(a, d_) not in g.bonds and B(c, b_) not in g.bonds \
+                                and not ({a, b_, c, d_} & used):
+                            cands.append((a, b_, c, d_))
+            if cands:
+                a, b_, c, d_ = cands[rng.randrange(len(cands))]
+                g.bonds[B(a, b_)]["reaction"] = "BROKEN"
+                g.bonds[B(c, d_)]["reaction"] = "BROKEN"
+                g.bonds[B(a, d_)] = {"reaction": "FORMED"}
+                g.bonds[B(c, b_)] = {"reaction": "FORMED"}
+                return g, kind
         if kind == "role" and g.bonds:
             b = rng.choice(sorted(g.bonds, key=lambda b: tuple(sorted(b))))
             cur = g.bonds[b].get("reaction")
